@@ -14,6 +14,8 @@
   counter and hence every estimate.
 -/
 import OtterVerif.Impl.Sketch
+import OtterVerif.Conc.PolicySkeleton
+import OtterVerif.Gen.Skeleton
 import OtterVerif.Proofs.Nibble
 import OtterVerif.Proofs.SketchCount
 
@@ -148,5 +150,11 @@ theorem c18_aging_halves_estimates (s : Sketch) (h : BitVec 64) :
 
 /-! ### Non-vacuity -/
 example : admitDecision 7 7 128 = true ∧ admitDecision 5 7 128 = false ∧ admitDecision 3 2 1 = true := by decide
+
+/-! ### The eviction decision has the shape the model follows (skeletons regenerated from policy.go on every run) -/
+theorem skeleton_policy_evictFromMain : Gen.Skeleton.policy_evictFromMain = Conc.PolicySkeleton.policy_evictFromMain := by decide
+theorem skeleton_policy_evictFromWindow : Gen.Skeleton.policy_evictFromWindow = Conc.PolicySkeleton.policy_evictFromWindow := by decide
+theorem skeleton_policy_evictNodes : Gen.Skeleton.policy_evictNodes = Conc.PolicySkeleton.policy_evictNodes := by decide
+theorem skeleton_policy_admit : Gen.Skeleton.policy_admit = Conc.PolicySkeleton.policy_admit := by decide
 
 end OtterVerif.Props.C18
